@@ -432,6 +432,13 @@ impl VxSliceStr for Vec<&'static str> {
     #[verifier::external_body] fn vx_join(&self, sep: &str) -> (r: String) { self.join(sep) }
 }
 
+pub open spec fn opt_ref<T>(o: &Option<T>) -> Option<&T> { match o { Some(v) => Some(v), None => None } }
+impl<const N: usize> VxSliceStr for [&'static str; N] {
+    open spec fn lits(&self) -> Seq<&'static str> { self@ }
+    #[verifier::external_body] fn vx_contains(&self, x: &&str) -> (r: bool) { self.contains(x) }
+    #[verifier::external_body] fn vx_join(&self, sep: &str) -> (r: String) { self.join(sep) }
+}
+
 // ---------------------------------------------------------------- Vec idioms
 pub trait VxVec<T> {
     spec fn vv(&self) -> Seq<T>;
